@@ -156,6 +156,41 @@ def vlq_decenc(L: int, twin: bool = False, real: bool = False):
     return check_vlq_decenc, {"b": bytes([0x80, 0x40] + [0] * L)[:L] if L >= 2 else b"\x05"}
 
 
+def list_prefix(lo: int, hi: int, twin: bool = False, real: bool = False):
+    """The length prefix of every serialized list is the VLQ encoding of its length, and the list decodes back to the
+    same number of elements - for every list length in [lo, hi) (symbolic)."""
+    ser, dt, sg, ms, H, mk = _env(real)
+
+    def check_list_prefix(n: int, v: int) -> bool:
+        """
+        post: _
+        """
+        if not (lo <= n < hi and 0 <= v <= 255):
+            return True
+        items = [ms.SupportedVersion(v) for _ in range(n)]
+        f = mk()
+        ser.stream_serialize_list(f, items)
+        enc = f.getvalue()
+        g = mk()
+        ser.stream_serialize_vlq(g, n)
+        prefix = g.getvalue()
+        if twin:
+            return False
+        if enc[:len(prefix)] != prefix or len(enc) != len(prefix) + n:
+            return False
+        if ser.serialize_list(items) != enc:
+            return False
+        back = ser.stream_deserialize_list(mk(enc), ms.SupportedVersion)
+        if len(back) != n:
+            return False
+        for b in back:
+            if b.version != v:
+                return False
+        return True
+
+    return check_list_prefix, {"n": lo, "v": 3}
+
+
 # ------------------------------------------------------------------------------------------------
 # object builders (symbolic fields) and field extractors
 
@@ -561,6 +596,8 @@ def obligations(tier: str, known: List[str]) -> List[Ob]:
         obs.append(Ob("a.vlq.dec-enc[len=%d]" % L, C_A, "vlq_decenc", {"L": L}, timeout=120))
     obs.append(twin_of(obs[1]))
     obs.append(twin_of(obs[-2]))
+    for (lo, hi) in ((0, 35), (35, 70), (70, 100), (100, 132)) + (((132, 165), (165, 200), (8185, 8200), (16380, 16390)) if thorough else ()):
+        obs.append(Ob("a.list-length-prefix[%d<=n<%d]" % (lo, hi), C_A + "; " + C_B, "list_prefix", {"lo": lo, "hi": hi}, timeout=600))
     # b. consensus objects, fields symbolic
     ser, dt, sg, ms, H, mk = _env(True)
     B = _mk_builders(dt, sg, ms)
